@@ -1,0 +1,86 @@
+// Verification hooks (cargo feature `verif-hooks`); not part of the protocol.
+
+//! Direct, runtime-free access to [`Votor`]'s event handlers.
+//!
+//! With [`verif_capture_timeouts`] enabled on the current thread,
+//! `Votor::set_timeouts` records the window it was asked to arm instead of
+//! spawning a timer task, so that a harness decides when timeouts fire.
+
+use std::cell::{Cell, RefCell};
+use std::hash::{Hash, Hasher};
+
+use super::{Votor, VotorTimeout};
+use crate::consensus::{BlockstoreEvent, PoolEvent};
+use crate::{All2All, Slot};
+
+thread_local! {
+    static CAPTURE: Cell<bool> = const { Cell::new(false) };
+    static ARMED: RefCell<Vec<Slot>> = const { RefCell::new(Vec::new()) };
+}
+
+/// Turns timer capturing on or off for the current thread.
+pub fn verif_capture_timeouts(on: bool) {
+    CAPTURE.with(|c| c.set(on));
+}
+
+/// Drains the windows (first slots) armed on this thread since the last call.
+pub fn verif_take_armed_windows() -> Vec<Slot> {
+    ARMED.with(|a| std::mem::take(&mut *a.borrow_mut()))
+}
+
+/// Returns `true` iff the timer request was captured (and must not be spawned).
+pub(super) fn capture_timeouts(slot: Slot) -> bool {
+    if CAPTURE.with(Cell::get) {
+        ARMED.with(|a| a.borrow_mut().push(slot));
+        true
+    } else {
+        false
+    }
+}
+
+impl<A: All2All> Votor<A> {
+    /// Runs the pool-event handler on `event`.
+    pub async fn verif_handle_pool_event(&mut self, event: PoolEvent) {
+        self.handle_pool_event(event).await;
+    }
+
+    /// Runs the blockstore-event handler on `event`.
+    pub async fn verif_handle_blockstore_event(&mut self, event: BlockstoreEvent) {
+        self.handle_blockstore_event(event).await;
+    }
+
+    /// Runs the timeout handler for `slot` (`crashed_leader` selects the early timeout).
+    pub async fn verif_handle_timeout(&mut self, slot: Slot, crashed_leader: bool) {
+        let event = if crashed_leader {
+            VotorTimeout::TimeoutCrashedLeader(slot)
+        } else {
+            VotorTimeout::Timeout(slot)
+        };
+        self.handle_timeout_event(event).await;
+    }
+
+    /// Feeds the complete voting state into `h`, in a canonical order.
+    pub fn verif_digest<H: Hasher>(&self, h: &mut H) {
+        for (slot, s) in &self.slots {
+            slot.hash(h);
+            s.voted.hash(h);
+            s.voted_notar.hash(h);
+            s.bad_window.hash(h);
+            s.block_notarized.hash(h);
+            for p in &s.parents_ready {
+                p.hash(h);
+            }
+            s.received_shred.hash(h);
+            if let Some(b) = &s.pending_block {
+                (&b.hash, &b.parent).hash(h);
+            }
+            s.retired.hash(h);
+        }
+        self.highest_final_cert_slot.hash(h);
+    }
+
+    /// Slots for which voting state is retained.
+    pub fn verif_retained_slots(&self) -> Vec<Slot> {
+        self.slots.keys().copied().collect()
+    }
+}
